@@ -357,6 +357,22 @@ MAINLOOP:
 			// can re-set the appropriate watches as it gets
 			// recreated if necessary.
 
+			// A dangling symlink: the file will (re)appear in the directory
+			// its target names, so that directory has to be watched as well.
+			if tgt, rlErr := os.Readlink(cleanedPath); rlErr == nil {
+				if !filepath.IsAbs(tgt) {
+					tgt = filepath.Join(cleanedPathDir, tgt)
+				}
+				if tgtDir, dirErr := filepath.EvalSymlinks(filepath.Dir(tgt)); dirErr == nil {
+					oldDir := filepath.Dir(resolvedCfgPath)
+					resolvedCfgPath = filepath.Join(tgtDir, filepath.Base(tgt))
+					ws.updateDirWatches(oldDir, tgtDir)
+					if oldDir != tgtDir {
+						signalRecheck()
+					}
+				}
+			}
+
 			// the config doesn't exist; just resume the loop.
 			continue
 		}
